@@ -61,6 +61,11 @@ def report_forms(R, ctx, cfg, tag, which=('cost', 'res', 'inf')):
         table['arg4.%s' % fld] = S_(fld)
     I = LF(F, E, f, lambda k, s: table.get(k))
     rows = I.run()
+    # the linear-form domain writes every vector norm as one atom; the documented figures are Euclidean norms of the scaled vectors, so the kind of
+    # norm is checked on the call list (an infinity norm understates the residual by up to sqrt(m))
+    kinds = sorted(set(c.callee.name for c in f.calls if c.callee.name.startswith(('norm', 'sumsq', 'maximum', 'minimum'))))
+    R.check(kinds == ['norm_scaled'], 'euclidean-norms' + tag, 'Info::update measures vectors with %s: the reported residuals and their normalisers are 2-norms of the un-equilibrated '
+            'vectors (norm_scaled)' % kinds, f.loc())
     tinv = P_inv(P_atom('τ'))
     cinv = P_inv(P_atom('c'))
     one = P_const(1)
